@@ -1007,7 +1007,8 @@ pub fn hostile(trace: &[Value]) -> Vec<Value> {
         json!({"ev":"Reset","run":trace[0]["run"]}),
         json!({"ev":"Case","victim":if victim_n == 0 { "s" } else { "c" },"d":tag["inject"],"applied":applied,
             "md":g(tpv,"md"),"sdbl":g(tpv,"sdbl"),"sdbr":g(tpv,"sdbr"),"sduni":g(tpv,"sduni"),
-            "msb":g(tpv,"msb"),"msu":g(tpv,"msu"),"dgram":tpv["dgram"].as_i64().unwrap_or(-1).min(1 << 30),
+            // a warmed-up run has completed one of the peer's bidirectional streams: one more is granted
+            "msb":g(tpv,"msb") + if tag["inject"]["warm"] == true { 1 } else { 0 },"msu":g(tpv,"msu"),"dgram":tpv["dgram"].as_i64().unwrap_or(-1).min(1 << 30),
             "lostv":lostv,"losta":losta,"closev":closev,"panic":panic,"stepbound":stepbound,
             "bystander":by_done,"maxq":maxq.to_vec(),"accept_err":accept_err,"read_after":read_after}),
     ]
